@@ -297,7 +297,7 @@ def key_history(ob: Dict[str, Any]) -> Dict[str, Any]:
                 problems.append(f"run {i + 1}: key {k} was written by {len(ps)} worker processes (the model has one worker per object)")
         hist.append({"fresh": sorted(k for k in keys if k not in stable), "stable": sorted(k for k in keys if k in stable),
                      "body": body, "sweep": sweep, "after": sorted(nm(k) for k in r["keys_after"]), "n_main_drops": len(main_drops)})
-    allk = [set(h["fresh"]) | set(h["stable"]) for h in hist]
+    allk = [set(h["fresh"]) | set(h["stable"]) | {k for _, k in h["body"]} for h in hist]
     rep = sorted({k for i, a in enumerate(allk) for j, b in enumerate(allk) if i < j for k in a & b})
     return {"stable": sorted(stable), "store0": sorted(nm(k) for k in ob["store0"]), "runs": hist, "repeated": rep, "problems": problems,
             "names": {v: k for k, v in nm.m.items() if v >= 1000 or v in stable}}
@@ -397,7 +397,7 @@ def check(rep: Any, tier: str, seed: int) -> bool:
         rep.nontrivial(("rerun", json.dumps(case["spec"], sort_keys=True), tuple(case["ops"])))
         key = json.dumps([case["spec"], case["ops"]], sort_keys=True)
         msgs = judge(ob, kh)
-        for m in msgs[:2]:
+        for m in msgs[:1]:
             rep.finding(f"rerun-judge:{key}", m, replay)
             found = True
         for m in kh["problems"][:2]:
